@@ -842,9 +842,25 @@ def rule_bounds(repo, col):
     lower = {}
     upper = {}
     unknown_tests = []
+    # a rejecting branch returns, or sets the message the function returns
+    returned = {r.value.id for r in body_walk(f) if isinstance(r, ast.Return)
+                and isinstance(r.value, ast.Name)}
+
+    def _is_message(v):
+        return isinstance(v, ast.JoinedStr) or (
+            isinstance(v, ast.Constant) and isinstance(v.value, str) and
+            v.value != '') or (
+            isinstance(v, ast.BinOp) and isinstance(v.op, ast.Mod) and
+            isinstance(v.left, ast.Constant) and
+            isinstance(v.left.value, str) and v.left.value != '')
+
+    def _rejects(b):
+        return isinstance(b, ast.Return) or (
+            isinstance(b, ast.Assign) and len(b.targets) == 1 and
+            isinstance(b.targets[0], ast.Name) and
+            b.targets[0].id in returned and _is_message(b.value))
     for n in body_walk(f):
-        if isinstance(n, ast.If) and any(isinstance(b, ast.Return)
-                                         for b in n.body):
+        if isinstance(n, ast.If) and any(_rejects(b) for b in n.body):
             atoms = _reject_atoms(n.test)
             names_in_test = {x.id for x in ast.walk(n.test)
                              if isinstance(x, ast.Name)}
@@ -936,7 +952,8 @@ def rule_shape_crosscheck(repo, col):
     HDF5)."""
     rule = 'AX-SHAPE'
     q = 'TableValidator._validate_json'
-    f = repo.func(VAL, q)
+    from .normalize import flat_view as _fv
+    f = _fv(repo.mod(VAL).tree, VAL, repo.func(VAL, q))
     want = {'rows': 0, 'columns': 1}
     seen = {}
     for n in body_walk(f):
